@@ -30,6 +30,7 @@ func runC20(c *Ctx) {
 	c20Bounded(c)
 	c20Gate(c)
 	c20Recheck(c)
+	c20EndDecrements(c)
 }
 
 // back-edge check: from start, is the loop head (any block in heads) reachable
